@@ -335,6 +335,12 @@ class Exec:
                 return bv(int(m.group(1)), w)
             if c in ("true", "false"):
                 return tt() if c == "true" else ff()
+            m = re.fullmatch(r"([iu](?:8|16|32|64|128|size))::(MIN|MAX)", c)
+            if m:
+                w, sg = INT_TYPES[m.group(1)]
+                if m.group(2) == "MIN":
+                    return bv((1 << (w - 1)) if sg else 0, w)
+                return bv(((1 << (w - 1)) - 1) if sg else ((1 << w) - 1), w)
             for name, (v, ty) in self.consts.items():
                 if c == name or c.endswith("::" + name):
                     return bv(v, INT_TYPES[ty][0])
@@ -630,6 +636,40 @@ def std_summaries():
         some = eq(o["disc"], bv(1, 64))
         return [(tt(), ite(some, o["variants"]["Some"][0], d))]
 
+    def dur_as_nanos(a, p, c):
+        d = a[0]["ref"]
+        m = app("bvmul", ("bv", 128), zext(d["secs"], 128), bv(NS, 128))
+        return [(tt(), app("bvadd", ("bv", 128), m, zext(d["nanos"], 128)))]
+
+    def i_div_euclid(a, p, c):
+        x, y = a
+        w = width(x)
+        mn = bv(1 << (w - 1), w)
+        p.append((AND(c, eq(y, bv(0, w))), "div_euclid: attempt to divide by zero"))
+        p.append((AND(c, eq(x, mn), eq(y, bv((1 << w) - 1, w))), "div_euclid: attempt to divide with overflow"))
+        q = app("bvsdiv", ("bv", w), x, y)
+        r = app("bvsrem", ("bv", w), x, y)
+        rneg = app("bvslt", "bool", r, bv(0, w))
+        ypos = app("bvsgt", "bool", y, bv(0, w))
+        adj = ite(ypos, app("bvsub", ("bv", w), q, bv(1, w)), app("bvadd", ("bv", w), q, bv(1, w)))
+        return [(tt(), ite(rneg, adj, q))]
+
+    def i_max(a, p, c):
+        x, y = a
+        return [(tt(), ite(app("bvsgt", "bool", x, y), x, y))]
+
+    def i_min(a, p, c):
+        x, y = a
+        return [(tt(), ite(app("bvslt", "bool", x, y), x, y))]
+
+    def u_max(a, p, c):
+        x, y = a
+        return [(tt(), ite(app("bvugt", "bool", x, y), x, y))]
+
+    def u_min(a, p, c):
+        x, y = a
+        return [(tt(), ite(app("bvult", "bool", x, y), x, y))]
+
     epoch = {"secs": bv(0, 64), "nanos": bv(0, 32)}
     return {
         "fns": {
@@ -644,6 +684,17 @@ def std_summaries():
             "SystemTime::checked_add": st_checked_add,
             "SystemTime::checked_sub": st_checked_sub,
             "Option::<SystemTime>::unwrap_or": opt_unwrap_or,
+            "Duration::as_nanos": dur_as_nanos,
+            "core::num::<impl i128>::div_euclid": i_div_euclid,
+            "core::num::<impl i64>::div_euclid": i_div_euclid,
+            "<i128 as Ord>::max": i_max,
+            "<i128 as Ord>::min": i_min,
+            "<i64 as Ord>::max": i_max,
+            "<i64 as Ord>::min": i_min,
+            "<u64 as Ord>::max": u_max,
+            "<u64 as Ord>::min": u_min,
+            "<u128 as Ord>::max": u_max,
+            "<u128 as Ord>::min": u_min,
         },
         "consts": {"web_time::UNIX_EPOCH": epoch},
     }
@@ -654,6 +705,7 @@ SUMMARY_DOC = [
     "summary: Duration = (secs: u64, nanos: u32 < 1e9); Duration::new carries nanos >= 1e9 into secs and panics on overflow",
     "summary: SystemTime = Unix timespec (secs: i64, nanos: u32 < 1e9); duration_since(UNIX_EPOCH) is Ok(d) for secs >= 0 and Err(epoch - t) otherwise; checked_add/checked_sub as in std's Timespec (None when the i64 seconds overflow)",
     "summary: Option::unwrap_or",
+    "summary: Duration::as_nanos = secs * 1e9 + nanos as u128; iN::div_euclid = floor-style Euclidean quotient (panics on /0 and MIN/-1); Ord::max/min on integers",
     "summary: promoted constants &UNIX_EPOCH = (0, 0)",
 ]
 
